@@ -163,10 +163,10 @@ Proof.
 Qed.
 
 (* under "no address on two nodes", the code's rule is the statement's rule *)
-Lemma code_iff_literal me v : single_homed v -> (c10_code me v <-> c10_literal me v).
+Lemma code_iff_literal me v : (bv_local v = true -> single_homed v) -> (c10_code me v <-> c10_literal me v).
 Proof.
-  intros Hsh. unfold c10_code, c10_literal. destruct (bv_local v) eqn:El.
-  - split.
+  intros Hsh0. unfold c10_code, c10_literal. destruct (bv_local v) eqn:El.
+  - pose proof (Hsh0 eq_refl) as Hsh. split.
     + intros [H1 [H2 [H3 [[a' Ha'] Hh]]]]. repeat split; try assumption.
       destruct (Hh eq_refl) as [a [[e [He [Hn Hc]]] Hall]]. exists a. split.
       * split; [exists e; auto|]. intros e' He' Hc'. apply Hall; auto.
@@ -181,7 +181,7 @@ Proof.
 Qed.
 
 Lemma bgp_should_announce_partial me v :
-  single_homed v -> (bgp_decide me v = RAnnounce <-> c10_literal me v).
+  (bv_local v = true -> single_homed v) -> (bgp_decide me v = RAnnounce <-> c10_literal me v).
 Proof. intros H. rewrite bgp_should_announce_iff. apply code_iff_literal. exact H. Qed.
 
 (* in one direction the statement's rule always implies the code's *)
